@@ -17,7 +17,7 @@ from .sym import (SymInt, SymBool, SStr, SymRatio, EngineError, branch, mk, mks,
 from .objs import (Cls, Obj, Func, BoundMethod, Builtin, NativeMethod, SuperProxy, ModStub, Module,
                    PyRaise, RegexObj, MatchObj, FileObj)
 from . import strmodel, rx
-from .lists import SeqList, ArrList, SymRange, EnumView
+from .lists import SeqList, ArrList, SymRange, EnumView, AbsList
 
 MAX_CALL_DEPTH = 960       # CPython's default recursion limit is 1000
 
@@ -683,7 +683,7 @@ class Interp:
             return v != 0
         if isinstance(v, (str, list, tuple, dict, bytes, bytearray, SStr, range, set, frozenset)):
             return len(v) > 0
-        if isinstance(v, (SeqList, ArrList)):
+        if isinstance(v, (SeqList, ArrList, AbsList)):
             return v.length() > 0
         if isinstance(v, Obj):
             if v.cls.kind == "namedtuple":
@@ -742,7 +742,7 @@ class Interp:
         raise EngineError("concretize over more than 1024 values (%s)" % what)
 
     def getitem(self, o, i):
-        if isinstance(o, (SeqList, ArrList)):
+        if isinstance(o, (SeqList, ArrList, AbsList)):
             return o.getitem(self, i)
         if isinstance(o, SStr):
             if isinstance(i, slice):
@@ -873,7 +873,7 @@ class Interp:
             return iter(it)
         if isinstance(it, SymRange):
             return it.iterate(self)
-        if isinstance(it, (SeqList, ArrList, EnumView)):
+        if isinstance(it, (SeqList, ArrList, EnumView, AbsList)):
             return it.iterate(self)
         if hasattr(it, "__next__"):
             return it
@@ -1108,7 +1108,7 @@ class Interp:
         b["object"] = self.markers["object"]
 
         def _len(x):
-            if isinstance(x, (SeqList, ArrList)):
+            if isinstance(x, (SeqList, ArrList, AbsList)):
                 return x.length()
             if isinstance(x, (str, list, tuple, dict, bytes, bytearray, SStr, range)):
                 return len(x)
@@ -1172,7 +1172,7 @@ class Interp:
                 return self.types["int"]
             if isinstance(x, (str, SStr)):
                 return self.types["str"]
-            if isinstance(x, (list, SeqList, ArrList)):
+            if isinstance(x, (list, SeqList, ArrList, AbsList)):
                 return self.types["list"]
             if isinstance(x, dict):
                 return self.types["dict"]
